@@ -127,7 +127,8 @@ def _step(draw):
                 "sing": draw(st.sampled_from(("zero", "onaxis", "lightlike", "beta1", "negt")))}
     if kind == "raise":
         return {"kind": "raise", "which": draw(st.sampled_from(("dims_add", "dims_dot", "cross4", "boost2d", "bad_obj", "bad_names", "bad_array",
-                                                                 "two_kw", "bad_order", "div0", "eq_dims", "like_bad"))), "h": draw(st.integers(0, 2**30))}
+                                                                 "two_kw", "bad_order", "div0", "eq_dims", "like_bad", "sum_bad_axis", "sum_bad_axis",
+                                                                 "aksum_bad_axis", "sum_where", "getitem_bad", "count_bad_axis"))), "h": draw(st.integers(0, 2**30))}
     return {"kind": "construct", "which": draw(st.sampled_from(("obj", "array", "zip", "Array", "zip_mom", "Array_behavior", "zip_behavior"))), "h": draw(st.integers(0, 2**30)),
             "v": draw(gen.vec(("moderate",)))}
 
@@ -345,6 +346,12 @@ def run_step(step, registered=False):
         "two_kw": lambda: a2.to_Vector4D(z=1.0, eta=2.0),
         "bad_order": lambda: a3.rotate_euler(0.1, 0.2, 0.3, "abc"),
         "div0": lambda: (a4 if h % 2 else arr4) / (0 if h % 4 < 2 else numpy.float64(0.0)),
+        # reductions and indexing that raise after their own set-up code has run
+        "sum_bad_axis": lambda: (numpy.sum(arr4, axis=3) if h % 3 == 0 else (arr4.sum(axis="0") if h % 3 == 1 else numpy.sum(arr4, axis=-5))),
+        "aksum_bad_axis": lambda: ak.sum(ak3, axis=7),
+        "sum_where": lambda: numpy.sum(arr4, where=numpy.array([True, False])),
+        "count_bad_axis": lambda: numpy.count_nonzero(arr4, axis=4),
+        "getitem_bad": lambda: arr4["nope"] if h % 2 else arr4[5],
         "eq_dims": lambda: ak3 == arr4,
         "like_bad": lambda: a3.like(5),
     }
